@@ -264,7 +264,7 @@ def binop(I, op, a, b):
         if isinstance(a, (list, MList, SV)) and isinstance(b, (list, MList, SV)):
             la, lb = lower(a), lower(b)
             if isinstance(a, list) or isinstance(b, list) or (entailed(I, V.is_VList(la)) and entailed(I, V.is_VList(lb))):
-                return SV(V.VList(V.vl_concat(V.vl(la), V.vl(lb))))
+                return SV(V.VList(V.vconcat(V.vl(la), V.vl(lb))))
         ia, ib = lower(a), lower(b)
         if entailed(I, z3.And(V.is_VInt(ia), V.is_VInt(ib))):
             return SV(V.VInt(V.vi(ia) + V.vi(ib)))
@@ -438,6 +438,7 @@ def _seq_term(I, it):
 
 
 _MAP_CACHE = {}
+_MAP_BY_NAME = {}
 _MAP_COUNTER = [0]
 MAPS = {}   # z3 func name -> dict(xs=VL term, var=elem const, body=Val term, site=str)
 
@@ -457,12 +458,21 @@ def symbolic_comprehension(I, e, env, module):
         # is harmless for the pure expressions used as iterables in the code under contract
         return None
     site = f"{getattr(module, '__name__', '?')}:{e.lineno}:{e.col_offset}"
+    # map fusion: a comprehension over the result of another (unfiltered) comprehension ranges over the inner source
+    pre_image = None
+    xs_s = z3.simplify(xs)
+    if z3.is_app(xs_s) and xs_s.decl().name() in _MAP_BY_NAME and _MAP_BY_NAME[xs_s.decl().name()]["keep"] is None \
+            and xs_s.num_args() == 1:
+        inner = _MAP_BY_NAME[xs_s.decl().name()]
+        xs = xs_s.arg(0)
+        pre_image = inner
     elem = I.p.fresh("elem")
     I.ctx.__dict__.setdefault("elem_parents", {})[elem.get_id()] = xs
     I.ctx.__dict__.setdefault("keepalive", []).append(elem)
     is_dict = isinstance(e, ast.DictComp)
     elt = ast.Tuple(elts=[e.key, e.value], ctx=ast.Load()) if is_dict else e.elt
-    body = merged_eval(I, elem, xs, g, elt, env, module, site)
+    bound = None if pre_image is None else z3.substitute(pre_image["body"], (pre_image["var"], elem))
+    body = merged_eval(I, elem, xs, g, elt, env, module, site, bound=bound)
     bterm, keep = body
     canon = z3.Const("__elem__", V.Val)
     key = (site, z3.substitute(bterm, (elem, canon)).sexpr(),
@@ -483,6 +493,7 @@ def symbolic_comprehension(I, e, env, module):
         ent = dict(var=canon, body=z3.substitute(bterm, (elem, canon)),
                    keep=None if keep is None else z3.substitute(keep, (elem, canon)), fn=f, site=site, name=fname)
         _MAP_CACHE[key] = ent
+        _MAP_BY_NAME[fname] = ent
     f = ent["fn"]
     m = dict(ent)
     m["xs"] = xs
@@ -498,7 +509,7 @@ def symbolic_comprehension(I, e, env, module):
     return SV(V.VList(f(xs)))
 
 
-def merged_eval(I, elem, xs, gen, elt_expr, env, module, site):
+def merged_eval(I, elem, xs, gen, elt_expr, env, module, site, bound=None):
     """Evaluate `elt_expr` with gen.target bound to the fresh element under every path; returns
     (body term, keep-condition term or None)."""
     from .interp import Interp
@@ -515,7 +526,7 @@ def merged_eval(I, elem, xs, gen, elt_expr, env, module, site):
         p.call_depth = parent.call_depth
         sub = Interp(p, I.src)
         inner = Env(env)
-        sub.assign_target(gen.target, SV(elem), inner, module)
+        sub.assign_target(gen.target, SV(elem if bound is None else bound), inner, module)
         keep = True
         for c in gen.ifs:
             if not sub.decide(sub.eval(c, inner, module), "comp-if"):
@@ -693,10 +704,10 @@ d_update = V.d_update
 
 def mlist_method(I, recv, name, args, kwargs):
     if name == "append":
-        recv.t = V.VList(V.vl_snoc(V.vl(recv.t), V.store_lower(args[0])))
+        recv.t = V.VList(V.vsnoc(V.vl(recv.t), V.store_lower(args[0])))
         return None
     if name == "extend":
-        recv.t = V.VList(V.vl_concat(V.vl(recv.t), V.vl(lower(args[0]))))
+        recv.t = V.VList(V.vconcat(V.vl(recv.t), V.vl(lower(args[0]))))
         return None
     if name == "index":
         x = lower(args[0])
@@ -900,7 +911,7 @@ def _list_extend(I, l, args, kwargs):
             raise Unsupported("native list .extend(symbolic sequence)")
         ot = lower(other)
         require_kind(I, ot, V.is_VList, "list.extend(arg)")
-        m = MList(V.VList(V.vl_concat(V.vl(lower(list(l))), V.vl(ot))))
+        m = MList(V.VList(V.vconcat(V.vl(lower(list(l))), V.vl(ot))))
         l.clear()
         l.m = m
         return None
@@ -1105,6 +1116,10 @@ def _any(I, args, kwargs):
             if I.decide(x, "any"):
                 return True
         return False
+    if isinstance(xs, (SV, MList)):
+        t = lower(xs)
+        require_kind(I, t, V.is_VList, "any(arg)")
+        return SV(V.VBool(V.vl_any(V.vl(t))))
     raise Unsupported("any() over symbolic sequence")
 
 
@@ -1116,6 +1131,10 @@ def _all(I, args, kwargs):
             if not I.decide(x, "all"):
                 return False
         return True
+    if isinstance(xs, (SV, MList)):
+        t = lower(xs)
+        require_kind(I, t, V.is_VList, "all(arg)")
+        return SV(V.VBool(V.vl_all(V.vl(t))))
     raise Unsupported("all() over symbolic sequence")
 
 
